@@ -169,7 +169,11 @@ fn odd_frames(r: &mut Rng, n: usize) -> Vec<Vec<u8>> {
             Ip::V6(V6 { src, dst, next: if r.chance(1, 10) { 17 } else { 6 }, ..Default::default() })
         };
         let link = match r.below(6) {
-            0 | 1 | 2 => Link::Ethernet,
+            0 | 1 => Link::Ethernet,
+            2 => {
+                let x = [r.u8(), r.u8(), r.u8(), r.u8(), r.u8(), r.u8()];
+                pkt::lookalike_macs(r.below(6), x)
+            }
             3 => Link::RawIp,
             4 => Link::Null([0x1e, 0, 0, 0]),
             _ => Link::Null(*r.pick(&[[0x02, 0, 0, 0], [0x1e, 0, 0x01, 0], [0x1c, 0, 0, 0], [0x1e, 0, 0, 1]])),
